@@ -16,7 +16,7 @@ RULE = (
     "{0,1,15,100,200}; log16 max_count in {70000,1e6,2^32-1,2^53,2^63} x num_reserved in {0,1,1023,30000}) and every counter value c (all 256; "
     "log16: all 65536 in thorough, every 16th plus +-2 around num_reserved and the maximum in quick) a 1x1 sketch with cms=c gets one add with a planted "
     "draw u in {0, P_c(1-1e-12), P_c(1+1e-12), 1-2^-53}, P_c = base^-(c-nr): below nr -> c+1 and no draw consumed; at the maximum -> unchanged, no draw; "
-    "else exactly one draw consumed and c+1 iff u < P_c; decode: query(c)==c for c<=nr+1, query matches own decode to 1e-9, P_c*(value(c+1)-value(c))==1 "
+    "else exactly one draw consumed and c+1 iff u < P_c; decode: query(c)==c for c<=nr+1 (also on a grid of ~300 log-spaced max_count values x num_reserved in {0,1,2,15,umax/2}), query matches own decode to 1e-9, P_c*(value(c+1)-value(c))==1 "
     "to 1e-9. (2) exact replay: Numba's generator seeded, refill forced, random add(key,v) / add_ngram(short key) / update(list) / update(dict) calls (incl. single adds of 65536..100000) on collision-free keys; a Python model fed the "
     "jitted np.random.rand stream must reproduce every counter and rand_ptr, and every observed batch must be the next unused 2048-slice. "
     "(3) distribution: R replicates of N unit adds (N in {200,1000,5000} for 4 configurations, plus single bulk adds of 65536, 70000 and 200000) for 4 log8 configurations; empirical CDF of the final counter within the "
@@ -113,6 +113,36 @@ def _counter_task(arg):
                 rec.bulk(n, nt)
                 return rec
     rec.bulk(n, nt, sample, {f"counter_draw_cases_{kind}": n})
+    return rec
+
+
+def _decode_grid(arg):
+    """The first counter above the reserved range decodes to exactly num_reserved+1 for EVERY configuration (the
+    value is (base^1-1)/(base-1)+nr = 1+nr; an algebraically equivalent but differently rounded formula is not exact
+    for some bases): many max_count values x num_reserved in {0,1,2,15,255-ish}."""
+    kind, lo, hi = arg
+    rec = common.Recorder()
+    cls = CountMinLog8 if kind == "log8" else CountMinLog16
+    umax = UMAX[kind]
+    n = 0
+    mcs = sorted({int(10 ** (2.5 + 0.055 * t)) for t in range(lo, hi)} | {1004, 1024, 10**7, 10**8, 10**9} if lo == 0 else {int(10 ** (2.5 + 0.055 * t)) for t in range(lo, hi)})
+    for mc in mcs:
+        if mc <= umax:
+            continue
+        for nr in (0, 1, 2, 15, umax // 2):
+            try:
+                sk = cls(1, 1, mc, nr)
+            except ValueError:
+                continue
+            for c in (nr, nr + 1):
+                sk.cms[0, 0] = c
+                q = float(sk.query(KEY))
+                n += 1
+                if q != float(c):
+                    rec.violation({"kind": kind, "max_count": mc, "num_reserved": nr, "c": c, "decode_grid": True}, f"{kind}(max_count={mc}, num_reserved={nr}) base={float(sk.base)!r}: counter {c} <= num_reserved+1 decodes to {q!r}, expected exactly {c}", "decode-reserved")
+                    rec.bulk(n, n)
+                    return rec
+    rec.bulk(n, n, {"kind": kind, "decode_grid": [lo, hi]}, {"decode_grid_cases": n})
     return rec
 
 
@@ -402,6 +432,7 @@ def run(tier, seed, rec):
     quick = tier == "quick"
     jobs = [("log8", mc, nr, tier) for mc, nr in LOG8_GRID] + [("log16", mc, nr, tier) for mc, nr in LOG16_GRID]
     common.pool_merge(_counter_task, jobs, rec)
+    common.pool_merge(_decode_grid, [(k, lo, lo + 38) for k in ("log8", "log16") for lo in range(0, 304, 38)], rec)
     if not rec.violations:
         rec.exhaustive.append("sub-check 1: every listed configuration x every enumerated counter value x 3-4 boundary draws (log8: all 256 counters; log16: all 65536 in thorough)")
     rj = []
@@ -433,6 +464,12 @@ def replay(case):
         r = _uniform_task((case.get("seed", 1), case.get("nbatches", 200)))
     elif "steps" in case:
         machines.replay_trace(case, LowerBound)
+        return
+    elif case.get("decode_grid"):
+        sk = (CountMinLog8 if case["kind"] == "log8" else CountMinLog16)(1, 1, case["max_count"], case["num_reserved"])
+        sk.cms[0, 0] = case["c"]
+        if float(sk.query(KEY)) != float(case["c"]):
+            raise Violation(f"counter {case['c']} decodes to {float(sk.query(KEY))!r}", "decode-reserved")
         return
     else:
         r = _counter_task((case["kind"], case["max_count"], case["num_reserved"], "thorough"))
